@@ -18,10 +18,10 @@ DOC = {
  "C09.R1": "RpcReplyPort is affine: no Clone/Copy impl, send(self, ..) consumes it (witness W1/W2 in witness/types)",
  "C09.R2": "fresh channel per call: the sender half given to the message builder and the receiver half awaited originate from the same oneshot() call; in multi_call that call is inside the per-actor cycle",
  "C09.R3": "result table identical in all waiting bodies: Ok(Ok(v))->Success(v), Ok(Err)->SenderError, Err->Timeout (with deadline); Ok(v)->Success(v), Err->SenderError (without)",
- "C09.R4": "deadline plumbing: the duration given to the crate's timeout and the Some(duration) tested originate from the function's timeout parameter; the port's From impls store it unchanged",
+ "C09.R4": "deadline plumbing: the duration given to the crate's timeout and the Some(duration) tested originate from the function's timeout parameter; an unbounded wait for a reply (plain rx.await) is reachable only on the None edge of that parameter (in the waiting body or where its task is created); the port's From impls store the duration unchanged",
  "C09.R5": "multi_call: index and receiver of each spawned wait come from the same enumerate item; the result vector is written only by resize_with and indexing with the index returned by that wait",
- "C09.R6": "call_and_forward: the forwarding send is a single call inside the closure given to CallResult::map (Success only), not in a cycle",
- "C09.R8": "internal_call: the send result is checked (`sent?`) before the reply is awaited (a refused message keeps its reply port alive, so waiting would hang); build+send happen once before the wait block",
+ "C09.R6": "call_and_forward: one forwarding send, not in a cycle, performed only for a Success reply: inside the closure given to CallResult::map (which maps Success only), or behind the Success edge of a match on the reply",
+ "C09.R8": "internal_call: the send result is checked (`sent?` or a match on it) before the reply is awaited (a refused message keeps its reply port alive, so waiting would hang); build+send happen once before the wait block",
  "C09.R9": "multi_call: each send result is tested and on the refused edge nothing is awaited or spawned before returning (the refused message keeps that callee's reply port alive)",
  "C09.R10": "exported macros, analysed where expanded (witness/derive::rpc_macros, built against /repo's macros): every call_t!/forward! arm passes its timeout as Some(duration) to the call; call!/untimed forward! pass None",
  "C09.R7": "= C08.R5 / C07.R6 / C03.R6: exiting actors flush queued requests (closing their reply ports); refused sends hand the message (with its port) back",
